@@ -11,6 +11,8 @@ mod refcodec;
 mod fam_amf;
 mod refchunk;
 mod fam_chunk;
+mod msgtext;
+mod fam_msg;
 
 #[global_allocator]
 static GLOBAL: alloc::Counting = alloc::Counting;
@@ -49,7 +51,10 @@ fn exec(st: &mut State, toks: &[&str]) -> String {
         ["note", ..] => "note".into(),
         _ => match fam_chunk::op(&mut st.chunk, toks) {
             Some(s) => s,
-            None => "bad-op".into(),
+            None => match fam_msg::op(toks) {
+                Some(s) => s,
+                None => "bad-op".into(),
+            },
         },
     }
 }
